@@ -456,6 +456,11 @@ func c14SpecOfU(u *unstructured.Unstructured) c14Spec {
 		sp.Labels = append(sp.Labels, c14KV{k, v})
 	}
 	sort.Slice(sp.Labels, func(i, j int) bool { return sp.Labels[i][0] < sp.Labels[j][0] })
+	if m, ok := u.Object["spec"].(map[string]any); ok {
+		if e := c14ExtraOf(m, false); len(e) > 0 {
+			sp.Extra = e
+		}
+	}
 	return sp
 }
 
@@ -704,7 +709,12 @@ func c14GenWorld(r *Rng, tier string) c14Scn {
 	for i := 0; i < rounds; i++ {
 		if r.Chance(3, 4) {
 			ns := cur
-			switch r.Intn(6) {
+			switch r.Intn(7) {
+			case 6:
+				ns.Extra = c14GenExtra(r, s.Kind != "Configuration", s.Kind == "Provider")
+				if r.Bool() {
+					ns.Source = Pick(r, c14ValidSources)
+				}
 			case 0, 1, 2:
 				ns.Source = Pick(r, c14ValidSources)
 			case 3:
